@@ -686,7 +686,13 @@ func (srv *server) addMsgToQueueLocked(now time.Time, clientID string, msg *gmqt
 		},
 	})
 	if err != nil {
-		srv.clients[clientID].queueNotifier.notifyDropped(msg, &queue.InternalError{Err: err})
+		dropErr := &queue.InternalError{Err: err}
+		if c := srv.clients[clientID]; c != nil {
+			c.queueNotifier.notifyDropped(msg, dropErr)
+		} else {
+			// the session is offline: there is no client to ask for a notifier
+			defaultNotifier(srv.hooks.OnMsgDropped, srv.statsManager, clientID).notifyDropped(msg, dropErr)
+		}
 		return
 	}
 }
